@@ -42,6 +42,20 @@ def _isnan1(x):
     return isinstance(x, (float, _np.floating)) and x != x
 
 
+def _homog(obj):
+    """shape of a nested list/tuple, ValueError (as real numpy with a numeric dtype) when ragged"""
+    if isinstance(obj, (list, tuple)):
+        if len(obj) == 0:
+            return (0,)
+        shapes = [_homog(o) for o in obj]
+        if any(sh != shapes[0] for sh in shapes):
+            raise ValueError("setting an array element with a sequence. The requested array has an inhomogeneous shape")
+        return (len(obj),) + shapes[0]
+    if isinstance(obj, _np.ndarray):
+        return obj.shape
+    return ()
+
+
 class Shim:
     int64 = object
 
@@ -64,11 +78,13 @@ class Shim:
     def array(self, obj, dtype=None, **kw):
         if _is_numeric_dtype(dtype):
             dtype = object
+            _homog(obj)
         return _np.array(obj, dtype=dtype, **kw)
 
     def asarray(self, obj, dtype=None, **kw):
-        if _is_numeric_dtype(dtype):
+        if _is_numeric_dtype(dtype) or dtype is object:
             dtype = object
+            _homog(obj)
         return _np.asarray(obj, dtype=dtype, **kw)
 
     def isnan(self, a):
